@@ -26,7 +26,8 @@ CONFIGS = {
     "dbg-ci": ("Debug", "-Wno-error " + ASAN, {"CHECK_INCONSISTENCIES": "ON"}),
     "dbg-hadd-ci": ("Debug", "-Wno-error " + ASAN, {"HEURISTIC_TYPE": "h_add", "CHECK_INCONSISTENCIES": "ON"}),
     # Debug without sanitizers (assertions on, deterministic arena usable)
-    "dbgn": ("Debug", "-Wno-error", {}),
+    # (-O1: what matters for the properties is that NDEBUG is off; -O0 makes exhaustive runs 5-10x slower)
+    "dbgn": ("Debug", "-Wno-error -O1", {}),
     "par": ("Debug", "-Wno-error", {"PARALLELIZE": "ON"}),
     "par-rel": ("RelWithDebInfo", "-Wno-error", {"PARALLELIZE": "ON"}),
     "par-tsan": ("Debug", "-Wno-error " + TSAN, {"PARALLELIZE": "ON"}),
